@@ -1466,7 +1466,11 @@ func (s *SelectStatement) RewriteRegexConditions() {
 		}
 
 		// Handle regex-based condition.
-		rhs := be.RHS.(*RegexLiteral) // This must be a regex.
+		rhs, ok := be.RHS.(*RegexLiteral)
+		if !ok {
+			// Precedence can put an expression here: a =~ /x/ + 1
+			return e
+		}
 
 		vals, ok := matchExactRegex(rhs.Val.String())
 		if !ok {
